@@ -178,3 +178,97 @@ end
 instance (d : ArrayData) : Decidable (WellFormed d) := decidable_of_iff _ (wellFormedB_iff d)
 
 end ArrowModel.Physical
+
+namespace ArrowModel.C09
+open ArrowModel.Physical
+
+theorem andThen_ok (r : Res) (k : Unit → Res) : r.andThen k = .ok ↔ r = .ok ∧ k () = .ok := by
+  cases r <;> simp [Res.andThen]
+
+theorem errIf_ok (c : Bool) : errIf c = .ok ↔ c = false := by
+  cases c <;> simp [errIf]
+
+/-- invariants the Rust types guarantee by construction: no buffer is `usize::MAX` bytes long
+(allocations are bounded by `isize::MAX`), and a `BooleanBuffer` covers its bit range
+(`BooleanBuffer::new` asserts it) -/
+def RustInv (d : ArrayData) : Prop :=
+  (∀ b, b ∈ d.buffers → b.length < USIZE - 1) ∧
+  (∀ n, d.nulls = some n → n.off + n.len ≤ 8 * n.bytes.length)
+
+/-- what a successful `validateHead` establishes -/
+theorem validateHead_ok {d : ArrayData} (h : validateHead d = .ok) :
+    d.len + d.offset < USIZE ∧
+    (d.nulls.isSome = true → (layout d.type).2 = true) ∧
+    d.buffers.length = (layout d.type).1.length ∧
+    buffersOk (d.len + d.offset) (layout d.type).1 d.buffers = true ∧
+    ∀ n, d.nulls = some n → n.len = d.len := by
+  unfold validateHead at h
+  split at h
+  · simp at h
+  · rename_i lpo hl
+    have hl' : d.len + d.offset < USIZE ∧ lpo = d.len + d.offset := by
+      unfold checkedAdd at hl; split at hl <;> simp_all
+    obtain ⟨hlt, rfl⟩ := hl'
+    simp only at h
+    split at h
+    · simp at h
+    · split at h
+      · simp at h
+      · split at h
+        · simp at h
+        · rename_i h1 h2 h3
+          refine ⟨hlt, ?_, by simpa using h2, by simpa using h3, ?_⟩
+          · intro hs; cases hc : (layout d.type).2 <;> simp_all
+          · intro n hn
+            rw [hn] at h
+            simp only at h
+            split at h
+            · simp at h
+            · split at h
+              · simp at h
+              · split at h
+                · simp at h
+                · simp_all
+
+theorem nullsOk_of_validate {d : ArrayData} (h1 : validateHead d = .ok) (h2 : validateNulls d = .ok)
+    (hi : RustInv d) : NullsOk d := by
+  unfold NullsOk
+  cases hn : d.nulls with
+  | none => trivial
+  | some n =>
+    have hb := hi.2 n hn
+    unfold validateNulls at h2
+    rw [andThen_ok] at h2
+    have h2 := h2.1
+    simp only [hn, errIf_ok] at h2
+    refine ⟨(validateHead_ok h1).2.2.2.2 n hn, hb, ?_⟩
+    simp at h2; exact h2.symm
+
+theorem satMul_le {a w n : Nat} (h : satMul a w ≤ n) (hn : n < USIZE - 1) : a * w ≤ n := by
+  unfold satMul at h
+  split at h <;> omega
+
+theorem validate_head_of_data {d : ArrayData} (h : validateData d = .ok) :
+    validateHead d = .ok ∧ validateNulls d = .ok := by
+  unfold validateData at h
+  rw [andThen_ok, andThen_ok] at h
+  refine ⟨?_, h.2.1⟩
+  have hv := h.1
+  cases d
+  unfold validate at hv
+  rw [andThen_ok] at hv
+  exact hv.1
+
+theorem validate_children_nil {d : ArrayData} (h : validate d = .ok)
+    (ht : d.type = .null ∨ d.type = .bool ∨ (∃ w, d.type = .prim w) ∨ (∃ n, d.type = .fsb n)) :
+    d.children = [] := by
+  cases d with
+  | mk t l o n bs cs =>
+  unfold validate at h
+  rw [andThen_ok, andThen_ok] at h
+  have h2 := h.2.1
+  simp only at ht
+  rcases ht with rfl | rfl | ⟨w, rfl⟩ | ⟨w, rfl⟩ <;> simp [errIf_ok] at h2 <;> simpa using h2
+
+
+end ArrowModel.C09
